@@ -123,7 +123,9 @@ def mk_operands(rng, I, dtype, cls, tier):
     depth = 3 if tier == 'thorough' and rng.random() < 0.5 else 2
     allow_zero = cls == 'zero-size'
     ts = TP.common_types(rng, depth=depth, max_numel=12, max_total=300, allow_zero=allow_zero)
-    if allow_zero and all(TP.t_numel(T) for T in ts):
+    if allow_zero and rng.random() < 0.4:
+        ts = TP.zero_summand_types(rng)         # well-typed injections with equal before / different after
+    elif allow_zero and all(TP.t_numel(T) for T in ts):
         ts[rng.randrange(len(ts))] = ('atom', 0)
     vals = FVALS if cls != 'finite' else [v for v in FVALS if math.isfinite(v)]
     defs = FDEF if cls != 'finite' else [0.0, 1.0, 2.5, -1.5]
